@@ -217,6 +217,86 @@ def r2_r3_regions(report, repo):
                'payload first): the device loses frame synchronisation')
 
 
+def r3b_payload_paths(report, repo):
+  rule = 'C13-R3'
+  f = repo.func(AM, CLS + '.write_message')
+
+  def cl(expr, steps):
+    if call_name(expr) == 'timeout.has_expired':
+      return 'expired'
+    return None
+
+  def sp(v, p):
+    if p.end != 'exit':
+      return None
+    rebind = [i for i, (n, _) in enumerate(p.steps) if n.kind == 'stmt' and
+              isinstance(n.ast, ast.Assign) and core.is_name(
+                  n.ast.targets[0], 'timeout')]
+    dataw = [i for i, (n, _) in enumerate(p.steps) if any(
+        isinstance(s_, ast.Call) and call_name(s_) == 'self._transport.write'
+        and any((dotted(a) or '').endswith('.data') for a in s_.args)
+        for s_ in n.subnodes())]
+    if len(dataw) != 1:
+      return 'payload-row: the payload is written %d times' % len(dataw)
+    if v['expired']:
+      if len(rebind) != 1 or rebind[0] > dataw[0]:
+        return ('expired-row: when the timeout expired after the header, the '
+                'payload must still be sent with a fresh (non-zero) timeout')
+      val = p.steps[rebind[0]][0].ast.value
+      ok = isinstance(val, ast.Call) and last_attr(val) in (
+          'from_millis', 'from_seconds') and val.args and isinstance(
+              val.args[0], ast.Constant) and val.args[0].value > 0
+      if not ok:
+        return 'expired-row: the replacement timeout is not a positive constant'
+    elif rebind:
+      return 'normal-row: the caller\'s timeout is replaced although not expired'
+    return None
+
+  lib.decision_table(report, rule, f, ['expired'], cl, sp)
+  rule4 = 'C13-R4'
+  r = repo.func(AM, CLS + '.read_message')
+
+  def cl2(expr, steps):
+    if isinstance(expr, ast.Compare) and len(expr.ops) == 1 and \
+        norm(expr.left) == 'raw_message.data_length' and isinstance(
+            expr.comparators[0], ast.Constant) and \
+        expr.comparators[0].value == 0:
+      if isinstance(expr.ops[0], (ast.Gt, ast.NotEq)):
+        return 'has_payload'
+      if isinstance(expr.ops[0], ast.Eq):
+        return ('not', 'has_payload')
+    if core.is_name(expr, 'raw_header'):
+      return 'got_header'
+    return None
+
+  def sp2(v, p):
+    if not v['got_header']:
+      return None  # covered by the empty-header rule
+    if p.end != 'exit':
+      return None
+    reads = [s_ for n, _ in p.steps for s_ in n.subnodes()
+             if isinstance(s_, ast.Call) and
+             call_name(s_) == 'self._transport.read']
+    pay = [c for c in reads if c.args and
+           norm(c.args[0]) == 'raw_message.data_length']
+    if v['has_payload']:
+      if len(pay) != 1:
+        return ('payload-row: a frame announcing a payload must read exactly '
+                'data_length bytes (payload reads: %d)' % len(pay))
+      src = p.value_of('data')
+      if src is not pay[0]:
+        return 'payload-row: the validated data is not what was read'
+    else:
+      if pay:
+        return 'empty-row: a payload is read for a frame announcing none'
+      src = p.value_of('data')
+      if not (isinstance(src, ast.Constant) and src.value in ('', b'')):
+        return 'empty-row: data must be empty for a frame without payload'
+    return None
+
+  lib.decision_table(report, rule4, r, ['got_header', 'has_payload'], cl2, sp2)
+
+
 def r4_validation(report, repo):
   rule = 'C13-R4'
   report.rule(rule, 'T-MUST/T-DTABLE: read_message delivers only what passed '
@@ -293,6 +373,8 @@ def r4_validation(report, repo):
       return None
     if p.end != 'exit':
       return 'accept-row: a consistent frame is rejected'
+    if p.last_return() is None or p.last_return().value is None:
+      return 'accept-row: must return the constructed AdbMessage'
     rv = p.last_return().value
     src = p.value_of(rv.id) if isinstance(rv, ast.Name) else rv
     if not (isinstance(src, ast.Call) and last_attr(src) == 'AdbMessage'):
@@ -372,7 +454,8 @@ def r5_tables(report, repo):
 
 
 def run(report, repo):
-  r1_layout(report, repo)
-  r2_r3_regions(report, repo)
-  r4_validation(report, repo)
-  r5_tables(report, repo)
+  report.guard(r1_layout, report, repo)
+  report.guard(r2_r3_regions, report, repo)
+  report.guard(r3b_payload_paths, report, repo)
+  report.guard(r4_validation, report, repo)
+  report.guard(r5_tables, report, repo)
